@@ -215,8 +215,9 @@ def _seq(prefixes, nxt):
     return out
 
 
-def paths(st, evf):
-    """evf(tokens) -> tuple of events of an expression (in source order)"""
+def paths(st, evf, condf=None):
+    """evf(tokens) -> tuple of events of an expression (in source order);
+    condf(tokens, taken) -> extra events for the branch of an `if` (guards), optional"""
     k = st[0]
     if k == "expr":
         return {(evf(st[1]), "fall")}
@@ -233,22 +234,23 @@ def paths(st, evf):
     if k == "block":
         cur = {((), "fall")}
         for s in st[1]:
-            cur = _seq(cur, paths(s, evf))
+            cur = _seq(cur, paths(s, evf, condf))
         return cur
     if k == "if":
-        c = {(evf(st[1]), "fall")}
-        a = _seq(c, paths(st[2], evf))
-        b = _seq(c, paths(st[3], evf)) if st[3] is not None else c
+        ct = {(evf(st[1]) + (condf(st[1], True) if condf else ()), "fall")}
+        cf = {(evf(st[1]) + (condf(st[1], False) if condf else ()), "fall")}
+        a = _seq(ct, paths(st[2], evf, condf))
+        b = _seq(cf, paths(st[3], evf, condf)) if st[3] is not None else cf
         return a | b
     if k in ("loop", "switch"):
         c = {(evf(st[1]), "fall")}
-        body = _seq(c, paths(st[2], evf))
+        body = _seq(c, paths(st[2], evf, condf))
         out = set(c) if k == "loop" else set()
         for ev, ex in body:
             out.add((ev, "fall" if ex in ("brk", "cont", "fall") else ex))
         return out
     if k == "do":
-        body = paths(st[1], evf)
+        body = paths(st[1], evf, condf)
         out = set()
         for ev, ex in body:
             if ex in ("fall", "cont"):
@@ -259,6 +261,33 @@ def paths(st, evf):
                 out.add((ev, ex))
         return out
     raise TranslatorError("unknown statement " + k)
+
+
+def function_paths(body, evf, condf=None):
+    """paths of a whole function body; `goto label` continues after a label of the function's
+    top-level block (anything else stays marked as exit "goto")"""
+    ps = paths(body, evf, condf)
+    stmts = body[1]
+    labels = {st[1]: i for i, st in enumerate(stmts) if st[0] == "label"}
+    for _ in range(6):
+        if not any(ex == "goto" for _, ex in ps):
+            break
+        out = set()
+        for ev, ex in ps:
+            if ex != "goto":
+                out.add((ev, ex))
+                continue
+            lab = ev[-1][2:]
+            if lab not in labels:
+                out.add((ev, "unresolved-goto"))
+                continue
+            cont = paths(("block", stmts[labels[lab] + 1:]), evf, condf)
+            for ev2, ex2 in cont:
+                out.add((ev[:-1] + ev2, ex2))
+        ps = out
+        if len(ps) > MAXPATHS:
+            raise TranslatorError("too many paths")
+    return ps
 
 
 def find_functions(src_clean, want=None):
@@ -307,8 +336,8 @@ int lkprobe_relret(void *LKCTX) { int LKRET; coap_lock_callback_ret_release(LKRE
 '''
 
 
-def cpp(repo, cfg, text=None, path=None, cc="gcc"):
-    cmd = [cc, "-E", "-P"] + CPP_COMMON + ["-I" + cfg, "-I" + os.path.join(cfg, "include"),
+def cpp(repo, cfg, text=None, path=None, cc="gcc", defs=()):
+    cmd = [cc, "-E", "-P"] + CPP_COMMON + list(defs) + ["-I" + cfg, "-I" + os.path.join(cfg, "include"),
                                            "-I" + os.path.join(repo, "include"),
                                            "-I" + os.path.join(repo, "src")]
     if text is not None:
@@ -342,7 +371,21 @@ def lock_events(toks):
         elif t == "LKFUNC":
             ev.append("F")
         elif t in ("epoll_wait", "select") and i + 1 < n and toks[i + 1] == "(":
-            ev.append("W")
+            # a wait; epoll_wait(..., 0) (literal zero timeout) only polls and may run locked
+            d, j, last = 0, i + 1, i + 2
+            while j < n:
+                if toks[j] == "(":
+                    d += 1
+                elif toks[j] == ")":
+                    d -= 1
+                    if d == 0:
+                        break
+                elif toks[j] == "," and d == 1:
+                    last = j + 1
+                j += 1
+            ev.append("P" if (t == "epoll_wait" and toks[last:j] == ["0"]) else "W")
+        elif t == "coap_io_do_epoll_lkd" and i + 1 < n and toks[i + 1] == "(":
+            ev.append("X")          # the collected events are consumed
         elif t == "lock_count" and i >= 2 and toks[i - 2] == "global_lock":
             raise TranslatorError("macro touches global_lock.lock_count directly")
         elif t == "pid" and i >= 2 and toks[i - 2] == "global_lock":
@@ -378,9 +421,9 @@ def lock_events(toks):
 MOP = {"I": "LkMInc", "D": "LkMDec", "U": "LkMUnlock", "L": "LkMLock", "F": "LkMFunc"}
 
 
-def probe_macros(repo, cfg):
+def probe_macros(repo, cfg, defs=()):
     """-> {api,keep,keepret,rel,relret: [mop names]}, diagnostics"""
-    out = cpp(repo, cfg, text=PROBE)
+    out = cpp(repo, cfg, text=PROBE, defs=defs)
     clean = strip_comments_strings(out)
     res, diag = {}, {}
     for name, hdr, toks, _ in find_functions(clean, want=r"lkprobe_\w+"):
@@ -406,7 +449,7 @@ def probe_macros(repo, cfg):
     return res, diag
 
 
-def scan_wait(repo, cfg):
+def scan_wait(repo, cfg, defs=()):
     """the unlock / wait / lock of coap_io_process_with_fds_lkd, from the preprocessed source"""
     src = None
     for f in sorted(glob.glob(os.path.join(repo, "src", "*.c"))):
@@ -415,14 +458,23 @@ def scan_wait(repo, cfg):
             break
     if not src:
         raise TranslatorError("coap_io_process_with_fds_lkd not found")
-    clean = strip_comments_strings(cpp(repo, cfg, path=src))
+    clean = strip_comments_strings(cpp(repo, cfg, path=src, defs=defs))
     fn = [x for x in find_functions(clean, want=r"\bcoap_io_process_with_fds_lkd\b")]
     if len(fn) != 1:
         raise TranslatorError("coap_io_process_with_fds_lkd: %d definitions after preprocessing" % len(fn))
     ps = paths(parse_body(fn[0][2]), lock_events)
     segs = set()
+    stale = set()
     for ev, ex in ps:
-        s = "".join(e for e in ev if e in "ULW")
+        full = "".join(e for e in ev if e in "ULWPX")
+        # events handed to coap_io_do_epoll_lkd must have been collected AFTER the lock was taken
+        # again: sockets referenced by events collected while unlocked may have been freed since
+        for m in re.finditer(r"X", full):
+            before = full[:m.start()]
+            k = max(before.rfind("W"), before.rfind("P"))
+            if k >= 0 and "L" in before[k:]:
+                stale.add(full)
+        s = "".join(e for e in full if e in "ULW")
         # the function is entered locked: cut the path at every wait
         for m in re.finditer(r"W+", s):
             before = s[:m.start()]
@@ -438,7 +490,91 @@ def scan_wait(repo, cfg):
     order = ["F", "UF", "FL", "UFL"]
     worst = sorted(segs, key=lambda x: order.index(x))[0]
     return [MOP[e] for e in worst], {"file": os.path.relpath(src, repo), "segments": sorted(segs),
-                                     "paths": len(ps)}
+                                     "paths": len(ps), "stale_event_paths": sorted(stale)}
+
+
+def static_config(repo, cfg, defs=()):
+    """What a build with these headers/defines WOULD contain, decided by the preprocessor alone:
+    is coap_lock_lock_func defined by src/coap_threadsafe.c, what does
+    coap_threadsafe_is_supported() return.  Used for configurations that are not built here
+    (COAP_THREAD_RECURSIVE_CHECK, the autoconf configuration) and as a cross-check of the
+    built one."""
+    ts = strip_comments_strings(cpp(repo, cfg, path=os.path.join(repo, "src", "coap_threadsafe.c"), defs=defs))
+    names = [n for n, _, _, _ in find_functions(ts)]
+    compiled = "coap_lock_lock_func" in names and "coap_lock_unlock_func" in names
+    net = None
+    for f in sorted(glob.glob(os.path.join(repo, "src", "*.c"))):
+        if re.search(r"^coap_threadsafe_is_supported\s*\(", open(f, errors="replace").read(), re.M):
+            net = f
+            break
+    if not net:
+        raise TranslatorError("coap_threadsafe_is_supported not found")
+    clean = strip_comments_strings(cpp(repo, cfg, path=net, defs=defs))
+    fn = [x for x in find_functions(clean, want=r"\bcoap_threadsafe_is_supported\b")]
+    if len(fn) != 1:
+        raise TranslatorError("coap_threadsafe_is_supported: %d definitions" % len(fn))
+    toks = fn[0][2]
+    if len(toks) == 5 and toks[0] == "{" and toks[1] == "return" and toks[3] == ";" and toks[4] == "}" \
+            and re.match(r"\d+$", toks[2]):
+        reports = int(toks[2]) != 0
+    else:
+        raise TranslatorError("coap_threadsafe_is_supported has an unexpected body: " + " ".join(toks[:20]))
+    return compiled, reports
+
+
+def ensure_autoconf_cfg(repo, build_dir):
+    """Run the repository's second build system (./autogen.sh && ./configure, defaults) on a
+    scratch copy and keep the generated coap_config.h + include/coap3/coap_defines.h in
+    <build_dir>/accfg/<hash>/ (the hash covers the autoconf inputs, so an edit to them is seen)."""
+    import hashlib
+    import shutil
+    files = [os.path.join(repo, f) for f in ("configure.ac", "autogen.sh", "Makefile.am")]
+    files += sorted(glob.glob(os.path.join(repo, "m4", "*")))
+    files += sorted(glob.glob(os.path.join(repo, "*.in"))) + \
+        sorted(glob.glob(os.path.join(repo, "include", "coap3", "*.in")))
+    h = hashlib.sha256()
+    for f in files:
+        h.update(os.path.relpath(f, repo).encode())
+        try:
+            h.update(open(f, "rb").read())
+        except OSError:
+            h.update(b"<missing>")
+    d = os.path.join(build_dir, "accfg", h.hexdigest()[:16])
+    if os.path.exists(os.path.join(d, "ok")):
+        return d
+    work = d + ".work"
+    shutil.rmtree(work, ignore_errors=True)
+    shutil.rmtree(d, ignore_errors=True)
+    os.makedirs(work)
+    subprocess.run(["rsync", "-a", "--exclude", ".git", "--exclude", "_build", repo + "/", work + "/"],
+                   check=True, timeout=300)
+    for cmd in (["./autogen.sh"], ["./configure", "--disable-doxygen", "--disable-manpages",
+                                    "--disable-examples"]):
+        p = subprocess.run(cmd, cwd=work, stdout=subprocess.PIPE, stderr=subprocess.STDOUT, timeout=900)
+        if p.returncode != 0:
+            raise TranslatorError("autoconf build system: %s failed:\n%s" %
+                                  (" ".join(cmd), p.stdout.decode("utf-8", "replace")[-1500:]))
+    os.makedirs(os.path.join(d, "include", "coap3"))
+    shutil.copy(os.path.join(work, "coap_config.h"), os.path.join(d, "coap_config.h"))
+    shutil.copy(os.path.join(work, "include", "coap3", "coap_defines.h"),
+                os.path.join(d, "include", "coap3", "coap_defines.h"))
+    shutil.rmtree(work, ignore_errors=True)
+    open(os.path.join(d, "ok"), "w").write("ok\n")
+    return d
+
+
+def config_only(repo, cfg, api_ok, cb_ok, defs=()):
+    """configuration dict of a header set that is not built here (preprocessor only)"""
+    macros, mdiag = probe_macros(repo, cfg, defs=defs)
+    wait, _ = scan_wait(repo, cfg, defs=defs)
+    compiled, reports = static_config(repo, cfg, defs=defs)
+    c = dict(macros)
+    c["wait"] = wait
+    c.update({"compiled": compiled, "reports": reports, "api_ok": api_ok, "cb_ok": cb_ok})
+    txt = cpp(repo, cfg, text='#include "coap3/coap_libcoap_build.h"\nLKV_TS COAP_THREAD_SAFE LKV_RC COAP_THREAD_RECURSIVE_CHECK LKV_END\n', defs=defs)
+    m = re.search(r"LKV_TS\s+(.*?)\s+LKV_RC\s+(.*?)\s+LKV_END", txt, re.S)
+    c["_values"] = {"COAP_THREAD_SAFE": m.group(1) if m else "?", "COAP_THREAD_RECURSIVE_CHECK": m.group(2) if m else "?"}
+    return c
 
 
 # ----------------------------------------------------------------------------- (iii) COAP_API wrappers
@@ -446,23 +582,92 @@ def scan_wait(repo, cfg):
 CB_MACROS = ("coap_lock_callback", "coap_lock_callback_ret", "coap_lock_callback_release",
              "coap_lock_callback_ret_release")
 
-# COAP_API functions that do not have the plain shape, each with the reason why that is all right
-# and the exact set of paths it must still have (L lock, U unlock, K = a *_lkd call, R return,
-# E end of a void function).  A change of shape is reported.
-API_EXCEPTIONS = {
-    "coap_delete_node": {
-        "why": "a node without a session is not linked into any context (nothing shared to protect); "
-               "with a session the plain lock/_lkd/unlock shape is used",
-        "paths": ["R", "KR", "LKUR"]},
-    "coap_delete_resource": {
-        "why": "a resource that was never added to a context (resource->context == NULL) is private "
-               "to the caller; otherwise plain shape",
-        "paths": ["R", "LKUR", "KR"]},
-    "coap_free_endpoint": {
-        "why": "lock and unlock are both guarded by the same test of the local copy of ep->context; "
-               "an endpoint without context is not shared",
-        "paths": ["E", "KE", "LKE", "KUE", "LKUE"]},
-}
+# Rule for every COAP_API function and every other function that uses the lock macros:
+#   * walking each path with the state unlocked/locked (entry state: unlocked, except for *_lkd
+#     functions, which are entered locked), L needs unlocked, U needs locked, the path must end in
+#     its entry state (no return with the lock held, no double unlock);
+#   * a *_lkd call (K) while unlocked is only tolerated on a path guarded by "X is NULL" where X
+#     is a field of the object itself (contains ->) or a local assigned from such a field
+#     ("the object is not attached to any context, nothing shared to protect").  A guard on a
+#     bare, caller-supplied parameter does not count: the lock decision must not depend on what
+#     the caller passes (coap_delete_resource(NULL, r) is the documented call form).
+#   * paths that take both branches of the same simple test are infeasible and dropped.
+LVALUE = re.compile(r"^[A-Za-z_]\w*(?:(?:->|\.)[A-Za-z_]\w*)*$")
+
+
+def guard_events(toks, taken):
+    t = "".join(toks)
+    neg = False
+    while t.startswith("!"):
+        neg = not neg
+        t = t[1:]
+    if t.startswith("(") and t.endswith(")") and LVALUE.match(t[1:-1]):
+        t = t[1:-1]
+    m = re.match(r"^(.*?)(==|!=)(NULL|0)$", t)
+    if m and LVALUE.match(m.group(1)):
+        t = m.group(1)
+        if m.group(2) == "==":
+            neg = not neg
+    if not LVALUE.match(t):
+        return ()
+    truthy = taken != neg
+    return (("T:" if truthy else "F:") + t,)
+
+
+def derived_locals(toks):
+    """identifiers assigned (or initialised) from an expression that dereferences an object:
+    x = a->b ... ;"""
+    out = set()
+    for i in range(1, len(toks) - 3):
+        if toks[i] == "=" and re.match(r"[A-Za-z_]\w*$", toks[i - 1]) and toks[i + 1] != "=" and \
+                toks[i - 1] not in ("return",) and (i < 2 or toks[i - 2] not in ("->", ".", "=", "!", "<", ">")):
+            j = i + 1
+            rhs = []
+            while j < len(toks) and toks[j] not in (";", ","):
+                rhs.append(toks[j])
+                j += 1
+            if "->" in rhs and "(" not in rhs:
+                out.add(toks[i - 1])
+    return out
+
+
+def walk_path(ev, entry_locked, derived):
+    """-> (list of problems, list of guards that justify unlocked *_lkd calls)"""
+    problems, used = [], []
+    locked = entry_locked
+    guards_false = []
+    seen = {}
+    for e in ev:
+        if e.startswith("T:") or e.startswith("F:"):
+            g = e[2:]
+            if g in seen and seen[g] != e[0]:
+                return None, None              # infeasible
+            seen[g] = e[0]
+            if e[0] == "F":
+                guards_false.append(g)
+        elif e == "L":
+            if locked:
+                problems.append("lock taken twice")
+            locked = True
+        elif e == "U":
+            if not locked:
+                problems.append("unlock without holding the lock")
+            locked = False
+        elif e == "K":
+            if not locked:
+                just = [g for g in guards_false if "->" in g or g in derived]
+                if just:
+                    used.append(just[-1])
+                else:
+                    problems.append("*_lkd function called without the lock" +
+                                    (" (guarded only by the caller-supplied %s)" % ", ".join(guards_false)
+                                     if guards_false else ""))
+        elif e in ("R", "E"):
+            if locked != entry_locked:
+                problems.append("returns with the lock %s" % ("held" if locked else "released"))
+        elif e.startswith("G:") or e == "?":
+            problems.append("control flow not understood (%s)" % e)
+    return problems, used
 
 
 def api_events(toks):
@@ -491,50 +696,65 @@ def api_events(toks):
     return tuple(ev)
 
 
-def scan_api(repo):
-    """-> (ok, records).  Raw sources of every src/*.c (all back-ends, all #if branches)."""
+def scan_api(repo, compiled_srcs=()):
+    """-> (ok, records).  Every COAP_API function of every src/*.c (raw source, all back-ends, all
+    #if branches) and every other function of the compiled sources that uses coap_lock_lock /
+    coap_lock_unlock."""
     recs = []
     ok = True
+    compiled = set(compiled_srcs)
     for f in sorted(glob.glob(os.path.join(repo, "src", "*.c"))):
+        rel = os.path.relpath(f, repo)
         raw = open(f, errors="replace").read()
-        if "COAP_API" not in raw:
+        if "COAP_API" not in raw and not (rel in compiled and "coap_lock_" in raw):
             continue
         clean = strip_cpp_lines(strip_comments_strings(raw))
-        for name, hdr, toks, off in find_functions(clean, want=r"\bCOAP_API\b"):
+        try:
+            funcs = list(find_functions(clean))
+        except IndexError:
+            if rel in compiled or "COAP_API" in raw:
+                recs.append({"file": rel, "name": "*", "verdict": "unparsed", "detail": "unbalanced braces"})
+                ok = False
+            continue
+        for name, hdr, toks, off in funcs:
+            is_api = re.search(r"\bCOAP_API\b", hdr) is not None
+            uses = "coap_lock_lock" in toks or "coap_lock_unlock" in toks
+            if not is_api and not (uses and rel in compiled):
+                continue
+            entry_locked = (not is_api) and name.endswith("_lkd")
             try:
-                ps = paths(parse_body(toks), api_events)
+                ps = function_paths(parse_body(toks), api_events, guard_events)
             except (TranslatorError, AssertionError, IndexError) as e:
-                recs.append({"file": os.path.relpath(f, repo), "name": name, "verdict": "unparsed",
-                             "detail": str(e)})
+                recs.append({"file": rel, "name": name, "verdict": "unparsed", "detail": str(e)})
                 ok = False
                 continue
-            strs = set()
+            derived = derived_locals(toks)
+            shapes, problems, guards = set(), [], set()
             for ev, ex in ps:
-                s = "".join(ev)
-                if ex == "fall":
-                    s += "E"
-                elif ex != "ret":
-                    s += "?"
-                strs.add(s)
-            strs = sorted(strs)
-            rec = {"file": os.path.relpath(f, repo), "name": name, "paths": strs}
-            if name in API_EXCEPTIONS:
-                if set(strs) <= set(API_EXCEPTIONS[name]["paths"]) and any("L" in s for s in strs):
-                    rec["verdict"] = "exception"
-                    rec["why"] = API_EXCEPTIONS[name]["why"]
-                else:
-                    rec["verdict"] = "exception-shape-changed"
+                ev = ev + (("E",) if ex == "fall" else () if ex == "ret" else ("?",))
+                pr, used = walk_path(ev, entry_locked, derived)
+                if pr is None:
+                    continue
+                shape = "".join(e for e in ev if len(e) == 1)
+                shapes.add(shape)
+                guards |= set(used)
+                for x in pr:
+                    problems.append("%s on path %s" % (x, shape))
+            rec = {"file": rel, "name": name, "api": is_api, "paths": sorted(shapes)}
+            if problems:
+                rec["verdict"] = "bad"
+                rec["problems"] = sorted(set(problems))
+                ok = False
+            elif not any("L" in x or "U" in x for x in shapes):
+                rec["verdict"] = "no-lock-needed" if not any("K" in x for x in shapes) else "bad"
+                if rec["verdict"] == "bad":
                     ok = False
+            elif guards:
+                rec["verdict"] = "guarded"
+                rec["guards"] = sorted(guards)
+                rec["why"] = "*_lkd called without the lock only where %s is NULL: the object is not attached to a context" % " / ".join(sorted(guards))
             else:
-                bad = [s for s in strs if not re.match(r"^(?:[RE]|LK*U[RE])$", s)]
-                if bad:
-                    rec["verdict"] = "bad"
-                    rec["bad_paths"] = bad
-                    ok = False
-                elif not any("L" in s for s in strs):
-                    rec["verdict"] = "no-lock-needed" if all(s in ("R", "E") for s in strs) else "bad"
-                else:
-                    rec["verdict"] = "ok"
+                rec["verdict"] = "ok"
             recs.append(rec)
     if sum(1 for r in recs if r["verdict"] == "ok") < 20:
         ok = False      # the scan lost the wrappers altogether
@@ -673,15 +893,9 @@ def coq_list(xs):
     return "[" + "; ".join(xs) + "]"
 
 
-def render(c):
+def _render_one(name, c):
     b = lambda x: "true" if x else "false"
-    return """(* GENERATED by tools/regen_lock.py from the source tree and its build configuration - do not edit.
-   Rewritten on every run of `tools/check.py C13` when the content changes. *)
-From Coq Require Import List.
-Import ListNotations.
-From LibcoapV Require Import Lock.LockModel.
-
-Definition lk_gen_cfg : lk_cfg :=
+    return """Definition %s : lk_cfg :=
   {| lk_compiled := %s;
      lk_reports := %s;
      lk_m_api := %s;
@@ -692,9 +906,31 @@ Definition lk_gen_cfg : lk_cfg :=
      lk_m_wait := %s;
      lk_api_ok := %s;
      lk_cb_ok := %s |}.
-""" % (b(c["compiled"]), b(c["reports"]), coq_list(c["api"]), coq_list(c["keep"]),
+""" % (name, b(c["compiled"]), b(c["reports"]), coq_list(c["api"]), coq_list(c["keep"]),
        coq_list(c["keepret"]), coq_list(c["rel"]), coq_list(c["relret"]), coq_list(c["wait"]),
        b(c["api_ok"]), b(c["cb_ok"]))
+
+
+def render(c, c_rc=None, c_ac=None):
+    """c: the configuration the library is built with here (cmake defaults);
+    c_rc: the same tree with COAP_THREAD_RECURSIVE_CHECK=1 (what the autoconf build enables by
+    default): the other variant of every lock macro and of the lock functions"""
+    txt = """(* GENERATED by tools/regen_lock.py from the source tree and its build configuration - do not edit.
+   Rewritten on every run of `tools/check.py C13` when the content changes. *)
+From Coq Require Import List.
+Import ListNotations.
+From LibcoapV Require Import Lock.LockModel.
+
+""" + _render_one("lk_gen_cfg", c)
+    if c_rc is not None:
+        txt += "\n(* the COAP_THREAD_RECURSIVE_CHECK variant of the macros (preprocessor only, not built) *)\n" + \
+            _render_one("lk_gen_cfg_rc", c_rc)
+    if c_ac is not None:
+        txt += "\n(* the configuration produced by the second build system: ./autogen.sh && ./configure\n" \
+               "   (COAP_THREAD_SAFE = %s, COAP_THREAD_RECURSIVE_CHECK = %s; preprocessor only, not built) *)\n" % \
+               (c_ac["_values"]["COAP_THREAD_SAFE"], c_ac["_values"]["COAP_THREAD_RECURSIVE_CHECK"]) + \
+            _render_one("lk_gen_cfg_autoconf", c_ac)
+    return txt
 
 
 CANON = {"api": ["LkMLock", "LkMFunc", "LkMUnlock"],
@@ -703,19 +939,30 @@ CANON = {"api": ["LkMLock", "LkMFunc", "LkMUnlock"],
          "wait": ["LkMUnlock", "LkMFunc", "LkMLock"]}
 
 
-def translate(repo, cfg, compiled_srcs, compiled, reports):
-    """-> (cfg dict, diagnostics dict)"""
+RC_DEFS = ("-DCOAP_THREAD_RECURSIVE_CHECK=1",)
+
+
+def translate(repo, cfg, compiled_srcs, compiled, reports, ac_cfg=None):
+    """-> (cfg dict, diagnostics dict); diag["rc"] = the RECURSIVE_CHECK variant of the cmake
+    configuration, diag["ac"] = the configuration produced by autogen.sh+configure (when given)"""
     macros, mdiag = probe_macros(repo, cfg)
     wait, wdiag = scan_wait(repo, cfg)
-    api_ok, api = scan_api(repo)
+    api_ok, api = scan_api(repo, compiled_srcs)
     cb_ok, sites, cbdiag = scan_callbacks(repo, compiled_srcs)
+    if wdiag["stale_event_paths"]:
+        api_ok = False
     c = dict(macros)
     c["wait"] = wait
     c.update({"compiled": bool(compiled), "reports": bool(reports), "api_ok": api_ok, "cb_ok": cb_ok})
-    diag = {"macros": mdiag, "wait": wdiag,
+    st_compiled, st_reports = static_config(repo, cfg)
+    rc = config_only(repo, cfg, api_ok, cb_ok, defs=RC_DEFS)
+    ac = config_only(repo, ac_cfg, api_ok, cb_ok) if ac_cfg else None
+    diag = {"macros": mdiag, "wait": wdiag, "rc": rc, "ac": ac,
+            "static": {"compiled": st_compiled, "reports": st_reports},
             "api": {"ok": api_ok, "functions": len(api),
                     "by_verdict": _hist(r["verdict"] for r in api),
-                    "not_ok": [r for r in api if r["verdict"] not in ("ok", "no-lock-needed")]},
+                    "not_ok": [r for r in api if r["verdict"] not in ("ok", "no-lock-needed")],
+                    "bad": [r for r in api if r["verdict"] in ("bad", "unparsed")]},
             "callbacks": {"ok": cb_ok, "sites": len(sites), "by_verdict": _hist(s["verdict"] for s in sites),
                           "not_wrapped": [s for s in sites if s["verdict"] != "wrapped"], **cbdiag},
             "api_all": api, "sites_all": sites}
@@ -729,7 +976,7 @@ def _hist(it):
     return h
 
 
-def differences(c):
+def differences(c, label=""):
     """human-readable list of what deviates from the canonical discipline"""
     out = []
     if not c["compiled"]:
@@ -744,7 +991,7 @@ def differences(c):
         out.append("a COAP_API function does not lock on entry / unlock on every return path")
     if not c["cb_ok"]:
         out.append("an application callback is invoked outside the lock macros")
-    return out
+    return [label + x for x in out]
 
 
 if __name__ == "__main__":
@@ -752,9 +999,14 @@ if __name__ == "__main__":
     import vlib
     cfgd = vlib.ensure_cfg()
     srcs = vlib.lib_sources(cfgd)
-    c, d = translate(vlib.REPO, cfgd, srcs, True, True)
+    acd = ensure_autoconf_cfg(vlib.REPO, vlib.BUILD)
+    c, d = translate(vlib.REPO, cfgd, srcs, True, True, ac_cfg=acd)
     d.pop("api_all")
     d.pop("sites_all")
-    print(json.dumps(d, indent=1))
-    print(render(c))
-    print(differences(c))
+    rc = d.pop("rc")
+    ac = d.pop("ac")
+    if "--gen" not in sys.argv:
+        print(json.dumps(d, indent=1))
+    print(render(c, rc, ac))
+    if "--gen" not in sys.argv:
+        print(differences(c), differences(rc, "[RECURSIVE_CHECK] "), differences(ac, "[autoconf] "))
